@@ -183,6 +183,79 @@ const CORE: &[(&str, &[(&str, &str)], &str)] = &[
     ("nop", &[], "BuildResult<()>"),
 ];
 
+/// Aliases the `spirv` crate of the working tree declares (`pub const A: Self = Self::B;` inside an
+/// inherent impl of an enumeration that also implements FromStr), from every source file of the
+/// crate: a declaration cannot be enumerated through the public API, only read.
+fn declared_aliases(repo: &str) {
+    let root = PathBuf::from(repo).join("spirv");
+    println!("cargo:rerun-if-changed={}", root.display());
+    let mut files = vec![];
+    walk(&root, &mut files);
+    let mut aliases: Vec<(String, String, String)> = vec![];
+    let mut from_str: std::collections::BTreeSet<String> = Default::default();
+    fn last_seg(t: &syn::Type) -> Option<String> {
+        if let syn::Type::Path(p) = t {
+            p.path.segments.last().map(|s| s.ident.to_string())
+        } else {
+            None
+        }
+    }
+    fn scan(items: &[syn::Item], aliases: &mut Vec<(String, String, String)>, from_str: &mut std::collections::BTreeSet<String>) {
+        for it in items {
+            match it {
+                syn::Item::Impl(im) => {
+                    let Some(ty) = last_seg(&im.self_ty) else { continue };
+                    if let Some((_, path, _)) = &im.trait_ {
+                        if path.segments.last().map(|s| s.ident == "FromStr").unwrap_or(false) {
+                            from_str.insert(ty);
+                        }
+                        continue;
+                    }
+                    for ii in &im.items {
+                        if let syn::ImplItem::Const(c) = ii {
+                            if !matches!(c.vis, syn::Visibility::Public(_)) {
+                                continue;
+                            }
+                            let is_self = matches!(&c.ty, syn::Type::Path(p) if p.path.is_ident("Self"));
+                            if !is_self {
+                                continue;
+                            }
+                            if let syn::Expr::Path(e) = &c.expr {
+                                let segs: Vec<String> = e.path.segments.iter().map(|s| s.ident.to_string()).collect();
+                                if segs.len() == 2 && (segs[0] == "Self" || segs[0] == ty) {
+                                    aliases.push((ty.clone(), c.ident.to_string(), segs[1].clone()));
+                                }
+                            }
+                        }
+                    }
+                }
+                syn::Item::Mod(m) => {
+                    if let Some((_, inner)) = &m.content {
+                        scan(inner, aliases, from_str);
+                    }
+                }
+                _ => {}
+            }
+        }
+    }
+    for p in &files {
+        let Ok(src) = std::fs::read_to_string(p) else { continue };
+        let Ok(ast) = syn::parse_file(&src) else { continue };
+        scan(&ast.items, &mut aliases, &mut from_str);
+    }
+    let mut out = String::from("// generated by build.rs from the alias constants declared under /repo/spirv -- do not edit\n");
+    out.push_str("pub static DECLARED_ALIASES: &[(&str, &str, &str, fn() -> (u32, u32), fn(&str) -> Option<u32>)] = &[\n");
+    for (ty, a, b) in &aliases {
+        if !from_str.contains(ty) {
+            continue;
+        }
+        writeln!(out, "    (\"{ty}\", \"{a}\", \"{b}\", || (spirv::{ty}::{a} as u32, spirv::{ty}::{b} as u32), |s| s.parse::<spirv::{ty}>().ok().map(|v| v as u32)),").unwrap();
+    }
+    out.push_str("];\n");
+    let dest = PathBuf::from(std::env::var("OUT_DIR").unwrap()).join("declared_aliases.rs");
+    std::fs::write(&dest, out).unwrap();
+}
+
 fn main() {
     let repo = std::env::var("VERIF_REPO").unwrap_or_else(|_| "/repo".to_string());
     // every source file of the rspirv crate: the Builder's methods may live in any module or be
@@ -267,6 +340,7 @@ fn main() {
     writeln!(out, "pub static METHODS: &[MethodInfo] = &[\n{}];", table).unwrap();
     let dest = PathBuf::from(std::env::var("OUT_DIR").unwrap()).join("builder_calls.rs");
     std::fs::write(&dest, out).unwrap();
+    declared_aliases(&repo);
     println!("cargo:rerun-if-changed=build.rs");
     println!("cargo:rerun-if-env-changed=VERIF_REPO");
 }
